@@ -750,7 +750,7 @@ def materialise(prog):
             nfiles = getattr(prog, "inj_files", 1)
             if nfiles <= 1 or len(inj_body) < 2:
                 files["%s/wire.go" % pdir] = "//go:build wireinject\n// +build wireinject\n\npackage %s\n\n%s\n%s\n" % (
-                    pname, imports_for(prog, inj_used, pkg, [WIRE_IMPORT[wimp]]), "\n\n".join(inj_body))
+                    pname, imports_for(prog, inj_used, pkg, [WIRE_IMPORT[wimp]] + (getattr(prog, "inj_helper_imports", []) if pkg == "app" else [])), "\n\n".join(inj_body))
             else:
                 # the injectors of the package spread over several files (every file imports everything and says so)
                 anchors = ["var _ = %s.Anchor" % prog.qual(q) for q in sorted(inj_used) if q != pkg] + [
@@ -759,7 +759,8 @@ def materialise(prog):
                     part = inj_body[k::nfiles]
                     fname = ["wire.go", "a_wire.go", "z_inject.go", "m_wire.go"][k % 4] if k < 4 else "wire%d.go" % k
                     files["%s/%s" % (pdir, fname)] = "//go:build wireinject\n// +build wireinject\n\npackage %s\n\n%s\n%s\n\n%s\n" % (
-                        pname, imports_for(prog, inj_used, pkg, [WIRE_IMPORT[wimp]]), "\n".join(anchors), "\n\n".join(part))
+                        pname, imports_for(prog, inj_used, pkg, [WIRE_IMPORT[wimp]] + (getattr(prog, "inj_helper_imports", []) if pkg == "app" else [])),
+                        "\n".join(anchors + (["var _ = fmt.Sprint"] if pkg == "app" and getattr(prog, "inj_helper_imports", []) else [])), "\n\n".join(part))
         if inj_body and not body:
             files["%s/%s.go" % (pdir, pkg)] = "package %s\n\nvar Anchor = 0\n" % pname
     for u, si, lib in mimics:
